@@ -104,6 +104,55 @@ def run(ctx):
                     ctx.tie_break("Dir.make_lfn vs make_lfn_entry", dict(name=n, encoding=enc))
                 if units > 11:
                     ctx.nontrivial.add((n, enc, pc))
+            # function level: the alias generator against the model's make_8dot3, for every name and directories in which the plain alias and
+            # growing runs of numbered aliases (up to three-digit tails) are already taken
+            if enc in ("ibm437", "cp850", "cp866"):
+                class _Ent:
+                    def __init__(self, sn):
+                        self.sn = sn
+
+                    def get_short_name(self):
+                        return self.sn
+
+                class _Parent:
+                    _encoding = enc
+
+                    def __init__(self, names):
+                        self.names = names
+
+                    def get_entries(self):
+                        return [], [_Ent(x) for x in self.names], []
+
+                def stored(alias):
+                    e = EightDotThree(encoding=enc)
+                    e.set_str_name(alias)
+                    return bytes(e.name).hex()
+                for n in uniq[:ctx.scale(120, 100000)]:
+                    taken = []
+                    for rounds in (0, 1, 3, 11, 101):
+                        try:
+                            while len(taken) < rounds:
+                                taken.append(EightDotThree.make_8dot3_name(n, _Parent(list(taken))))
+                            got = EightDotThree.make_8dot3_name(n, _Parent(list(taken)))
+                            tk = "|".join(stored(a) for a in taken) or "."
+                        except Exception as e:  # noqa  (names the generator cannot alias are reported by the history level)
+                            break
+                        ws, r = m.cmd(f"f.alias {enc_name(n, enc)} {tk}")
+                        ctx.traces += 1
+                        ctx.dist["alias-tie"] += 1
+                        if r is None:
+                            continue
+                        want = None
+                        if r.startswith("ok"):
+                            t = r.split()
+                            b, x = bytes.fromhex(t[1] if t[1] != "." else ""), bytes.fromhex(t[2] if len(t) > 2 and t[2] != "." else "")
+                            want = b.decode(enc, "replace") + ("." + x.decode(enc, "replace") if x else "")
+                        if want != got:
+                            ctx.tie_break("Dir.make_8dot3 vs make_8dot3_name", dict(name=n, encoding=enc, taken=len(taken), impl=got, model=r))
+                            break
+                        if got in taken:
+                            ctx.violation(f"[{enc}] alias {got!r} generated for {n[:40]!r} is already a short name of the directory", "alias-not-fresh", dict(name=n, encoding=enc, taken=taken[:5]))
+                            break
             # history level: create each name, look it up, list it; in chunks so that directories grow over clusters
             label = "build16-names"
             img, info = fatspec.build(16, clusters=4300, spc=1, rootent=512)
